@@ -33,12 +33,13 @@ CHECKS = {
         assumptions=CODEC_ASSUME + ["a message whose serialisation already lost a populated field (C17's findings) is outside C02's premise and is counted under counters.skipped"],
     ),
     "C18": dict(
-        engine="codec", level="exploration",
-        args=dict(quick=["-budget", "5"], thorough=["-budget", "6"]),
+        level="exploration",
+        phases=[dict(engine="codec", args=dict(quick=["-budget", "5"], thorough=["-budget", "6"])),
+                dict(engine="sess", args=[])],
         deadline=dict(quick=110, thorough=1500),
         rule="for every template unit, every population, every tag t of template ∪ framing ∪ {34}: (i) each String/Raw field takes the values t=, t=1, xt=2, y\\x02t=, =t=; (ii) a decoy field with tag 1t, t1, 9t, t0, t-without-first-digit, t-without-last-digit is placed before / after the genuine fields; (iii) genuine field or group present/absent. The message is built by the harness encoder; Unmarshal (strict and not) must yield exactly the population and ValueByTag must equal the reference whole-tag lookup for every tag. Non-trivial-distinct key: (unit, typed shape, population, kind {plain, decoy-before, decoy-after, taglike-value}, values, decoy).",
         assumptions=CODEC_ASSUME + ["decoy fields are placed at top level only (after MsgType / before CheckSum); the trailer is left unpopulated (C17 known finding)",
-                                    "delivery of such messages through Conn.runReader (end-of-message detection) is checked by C04's scenarios, whose message pool contains values with '10=' text"],
+                                    "second phase (sess engine): 34 messages whose values contain / end with '10=', whose tags end in 10, or with a field longer than 4096 bytes are delivered in pairs through the real Conn on the scripted socket (both roles, 5 read partitions each); delivered boundaries must equal sent boundaries"],
     ),
     "C03": dict(
         engine="codec", level="exploration",
